@@ -1,1 +1,376 @@
-/-! Property theorems for C11 (none yet). -/
+import MirVerif.Lemmas.BinIOMain
+import MirVerif.Lemmas.BinIOLabels
+import MirVerif.Gen.C11_Tables
+/-!
+# C11 — binary MIR written by MIR_write reads back as the same module, deterministically
+
+Property theorems about the model of the binary writer/reader of `mir.c` (raw token stream; the
+compression layer is C12's).  The model (`Model/BinIO*.lean`) is parametric in `Cfg`, the facts
+of the reader that `translate/c11_tables.py` reads off the *current* source (`Gen.C11.cfg`); the
+theorems hold for every `Cfg`, `bin_roundtrip_current` instantiates them with the generated one.
+
+FULL STATEMENT (false on the code as it is today):
+    ∀ ms, WFfull ms → readModules Gen.C11.cfg (writeModules Gen.C11.cfg ms) = .ok ms
+where `WFfull` has no exclusion for `global` variables, prset/prbeq/prbne, data of type p and
+functions that end with a label.
+Witnesses of the failure on today's facts (`Cfg.today`): `global_var_not_read_back` (#30),
+`property_insn_not_read_back` (#31), `data_p_not_read_back` (#34), `trailing_label_not_read_back`,
+and `lref_labels_orphan` (#6)
+for `label_identity` of lref items; the check replays each of them on the real code.
+What is proved instead: `bin_roundtrip_partial` for every `Cfg` under `WF cfg` (the exclusions are
+exactly the conjuncts of `WF` that mention `cfg`), and `bin_roundtrip`: as soon as the three reader
+facts are repaired (`Cfg.sound`) the statement holds for the whole vocabulary.
+-/
+namespace BinIO.Props
+open BinIO
+
+deriving instance DecidableEq for Except
+
+/-! ## numbers -/
+
+/-- `get_uint (put_uint u nb)` returns the low `nb` bytes -/
+theorem putuint_getuint (nb u : Nat) (rest : List Byte) :
+    getUint nb (putUint u nb ++ rest) = .ok (u % 256 ^ nb, rest) := getUint_putUint nb u rest
+
+/-- every unsigned 64-bit value survives `write_uint` / `read_token` -/
+theorem uint_tok_roundtrip (u : BitVec 64) (rest : List Byte) :
+    readToken (writeUint u.toNat ++ rest) = .ok (.uint u.toNat, rest) :=
+  readToken_writeUint u.toNat rest u.isLt
+
+/-- every `int64_t` (carried as its 64-bit pattern: negative values have the top bit set and take
+8 bytes, non-negative ones are zero-extended by the reader) survives `write_int` / `read_token` -/
+theorem int_tok_roundtrip (i : BitVec 64) (rest : List Byte) :
+    readToken (writeInt i.toNat ++ rest) = .ok (.int i.toNat, rest)
+    ∧ BitVec.ofNat 64 i.toNat = i :=
+  ⟨readToken_writeInt i.toNat rest i.isLt, by simp⟩
+
+/-- the same through `read_uint` / `read_int` (used for bss lengths, ref/lref displacements, …) -/
+theorem uint_int_direct_roundtrip (v : BitVec 64) (m : String) (rest : List Byte) :
+    readUint m (writeUint v.toNat ++ rest) = .ok (v.toNat, rest)
+    ∧ readInt m (writeInt v.toNat ++ rest) = .ok (v.toNat, rest) :=
+  ⟨readUint_writeUint m _ rest v.isLt, readInt_writeInt m _ rest v.isLt⟩
+
+/-- a negative `int64_t` is written with all 8 bytes (tag + 8) -/
+theorem int_tok_negative_length (i : BitVec 64) (h : 2 ^ 63 ≤ i.toNat) : (writeInt i.toNat).length = 9 := by
+  have := i.isLt
+  have : intLength i.toNat = 8 := by unfold intLength nbytes; repeat' split
+                                     all_goals omega
+  simp [writeInt, this]
+
+/-- the length written is minimal: `k` bytes are used only if `k-1` do not suffice -/
+theorem int_tok_length_minimal (i k : Nat) (h : i < 256 ^ k) (hk : 1 ≤ k) (hk8 : k < 8) :
+    intLength i ≤ k := by
+  unfold intLength
+  rcases nbytes_minimal i k h with h1 | h1
+  · split <;> omega
+  · omega
+
+/-- float / double / long double immediates are copied bit for bit (NaN payloads, ±0, …) -/
+theorem float_bits_roundtrip (f : BitVec 32) (d : BitVec 64) (ld : BitVec 80) (rest : List Byte) :
+    readToken (writeFloat f.toNat ++ rest) = .ok (.flt f.toNat, rest)
+    ∧ readToken (writeDouble d.toNat ++ rest) = .ok (.dbl d.toNat, rest)
+    ∧ readToken (writeLdouble ld.toNat ++ rest) = .ok (.ldbl ld.toNat, rest) :=
+  ⟨readToken_writeFloat _ rest f.isLt, readToken_writeDouble _ rest d.isLt,
+   readToken_writeLdouble _ rest ld.isLt⟩
+
+/-- a long double token is 1 + 16 bytes: 10 significant bytes and 6 bytes of padding -/
+theorem ldouble_tok_length (v : Nat) : (writeLdouble v).length = 17 := by simp [writeLdouble]
+
+/-- string / register / name / label numbers in 1–4 bytes -/
+theorem strtab_index_roundtrip (i : Nat) (h : i < 2 ^ 32) (rest : List Byte) :
+    readToken (writeIdx Tag.str1 i ++ rest) = .ok (.str i, rest)
+    ∧ readToken (writeIdx Tag.reg1 i ++ rest) = .ok (.reg i, rest)
+    ∧ readToken (writeIdx Tag.name1 i ++ rest) = .ok (.name i (idxLen i), rest)
+    ∧ readToken (writeIdx Tag.lab1 i ++ rest) = .ok (.lab i, rest)
+    ∧ 1 ≤ idxLen i ∧ idxLen i ≤ 4 :=
+  ⟨readToken_writeIdx_str i rest h, readToken_writeIdx_reg i rest h, readToken_writeIdx_name i rest h,
+   readToken_writeIdx_lab i rest h, (idxLen_range i h).1, (idxLen_range i h).2.1⟩
+
+example : idxLen 255 = 1 ∧ idxLen 256 = 2 ∧ idxLen 65535 = 2 ∧ idxLen 65536 = 3
+    ∧ idxLen (2 ^ 24 - 1) = 3 ∧ idxLen (2 ^ 24) = 4 ∧ idxLen (2 ^ 32 - 1) = 4 := by decide
+
+/-! ## unique decodability of the token stream -/
+
+/-- canonical encoding of a reader token -/
+def encRaw : Tok → List Byte
+  | .uint v => writeUint v
+  | .int v => writeInt v
+  | .flt v => writeFloat v
+  | .dbl v => writeDouble v
+  | .ldbl v => writeLdouble v
+  | .reg i => writeIdx Tag.reg1 i
+  | .name i _ => writeIdx Tag.name1 i
+  | .str i => writeIdx Tag.str1 i
+  | .lab n => writeIdx Tag.lab1 n
+  | .mem t => [t]
+  | .ty t => [Tag.ti8 + t]
+  | .eoi => [Tag.eoi]
+  | .eof => [Tag.eofile]
+
+def TokWF : Tok → Prop
+  | .uint v => v < 2 ^ 64
+  | .int v => v < 2 ^ 64
+  | .flt v => v < 2 ^ 32
+  | .dbl v => v < 2 ^ 64
+  | .ldbl v => v < 2 ^ 80
+  | .reg i => i < 2 ^ 32
+  | .name i nb => i < 2 ^ 32 ∧ nb = idxLen i
+  | .str i => i < 2 ^ 32
+  | .lab n => n < 2 ^ 32
+  | .mem t => (36 ≤ t ∧ t ≤ 42) ∨ (63 ≤ t ∧ t ≤ 69)
+  | .ty t => t ≤ 17
+  | .eoi => True
+  | .eof => True
+
+instance (t : Tok) : Decidable (TokWF t) := by
+  cases t <;> (unfold TokWF; infer_instance)
+
+theorem readToken_encRaw (t : Tok) (h : TokWF t) (rest : List Byte) :
+    readToken (encRaw t ++ rest) = .ok (t, rest) := by
+  cases t with
+  | uint v => exact readToken_writeUint v rest h
+  | int v => exact readToken_writeInt v rest h
+  | flt v => exact readToken_writeFloat v rest h
+  | dbl v => exact readToken_writeDouble v rest h
+  | ldbl v => exact readToken_writeLdouble v rest h
+  | reg i => exact readToken_writeIdx_reg i rest h
+  | name i nb => obtain ⟨h1, h2⟩ := h; subst h2; exact readToken_writeIdx_name i rest h1
+  | str i => exact readToken_writeIdx_str i rest h
+  | lab n => exact readToken_writeIdx_lab n rest h
+  | mem t => exact readToken_mem t rest h
+  | ty t => exact readToken_type t rest h
+  | eoi => exact readToken_eoi rest
+  | eof => exact readToken_eof rest
+
+/-- no token encoding is a prefix of a different one -/
+theorem token_prefix_free (t1 t2 : Tok) (h1 : TokWF t1) (h2 : TokWF t2) (r1 r2 : List Byte)
+    (e : encRaw t1 ++ r1 = encRaw t2 ++ r2) : t1 = t2 ∧ r1 = r2 := by
+  have a := readToken_encRaw t1 h1 r1
+  have b := readToken_encRaw t2 h2 r2
+  rw [e, b] at a
+  injection a with a
+  injection a with a1 a2
+  exact ⟨a1.symm, a2.symm⟩
+
+theorem encRaw_ne_nil (t : Tok) : encRaw t ≠ [] := by
+  cases t <;> simp [encRaw, writeUint, writeInt, writeFloat, writeDouble, writeLdouble, writeIdx]
+  · split <;> simp
+
+/-- a byte string is the encoding of at most one token sequence -/
+theorem tokens_uniquely_decodable (ts1 ts2 : List Tok) (h1 : ∀ t, t ∈ ts1 → TokWF t)
+    (h2 : ∀ t, t ∈ ts2 → TokWF t) (e : ts1.flatMap encRaw = ts2.flatMap encRaw) : ts1 = ts2 := by
+  induction ts1 generalizing ts2 with
+  | nil =>
+    cases ts2 with
+    | nil => rfl
+    | cons t ts =>
+      simp only [List.flatMap_nil, List.flatMap_cons] at e
+      have := encRaw_ne_nil t
+      cases h : encRaw t with
+      | nil => exact absurd h this
+      | cons a l => rw [h] at e; simp at e
+  | cons t ts ih =>
+    cases ts2 with
+    | nil =>
+      simp only [List.flatMap_nil, List.flatMap_cons] at e
+      have := encRaw_ne_nil t
+      cases h : encRaw t with
+      | nil => exact absurd h this
+      | cons a l => rw [h] at e; simp at e
+    | cons t' ts' =>
+      simp only [List.flatMap_cons] at e
+      obtain ⟨e1, e2⟩ := token_prefix_free t t' (h1 t List.mem_cons_self) (h2 t' List.mem_cons_self) _ _ e
+      subst e1
+      rw [ih ts' (fun x hx => h1 x (List.mem_cons_of_mem _ hx)) (fun x hx => h2 x (List.mem_cons_of_mem _ hx)) e2]
+
+/-! ## the string table -/
+
+/-- pass 1 enters every string of the traversal, each once -/
+theorem strtab_complete_nodup (toks : List STok) :
+    (∀ t s, t ∈ toks → strOf t = some s → s ∈ strTable toks) ∧ (strTable toks).Nodup :=
+  ⟨fun t s ht hs => mem_strTable_of_tok toks t s ht hs, strTable_nodup toks⟩
+
+/-- the number written for a string leads back to the string -/
+theorem strtab_lookup_roundtrip (tab : List Str) (s : Str) (h : s ∈ tab) :
+    toStr tab (tab.idxOf s) = .ok s := toStr_idxOf tab s h
+
+/-! ## items and modules -/
+
+/-- one item of any kind (function included): the reader loop consumes exactly its bytes and
+appends the same item to the module under construction -/
+theorem item_roundtrip (cfg : Cfg) (tab : List Str) (it : Item) (fuel : Nat) (done : List Module)
+    (macc : ModAcc) (X : List Byte) (hw : ItemOK cfg it) (hin : InTab tab (toksItem cfg it))
+    (hl : tab.length ≤ 2 ^ 32) (hrefs : itemRefsOK macc.decl it = true) :
+    readLoop cfg tab (fuel + nstmtsItem it) { doneRev := done, mod := some macc, func := none }
+        ((toksItem cfg it).flatMap (encTok tab) ++ X)
+      = readLoop cfg tab fuel
+        { doneRev := done,
+          mod := some { macc with itemsRev := it :: macc.itemsRev, decl := itemDecl it ++ macc.decl },
+          func := none } X :=
+  readLoop_item cfg tab it fuel done macc X hw hin hl hrefs
+
+/-- operands of every kind, all 14 memory shapes with and without alias names -/
+theorem operand_roundtrip (tab : List Str) (op : Op) (rest : List Byte) (hw : OpOK op)
+    (hin : InTab tab (toksOp op)) (hl : tab.length ≤ 2 ^ 32) :
+    readOperand tab ((toksOp op).flatMap (encTok tab) ++ rest) = .ok (some op, rest) :=
+  readOperand_enc tab op rest hw hin hl
+
+/-- **round trip** for every reader configuration `cfg`, under `WF cfg` -/
+theorem bin_roundtrip_partial (cfg : Cfg) (ms : List Module) (h : WF cfg ms) :
+    readModules cfg (writeModules cfg ms) = .ok ms := readModules_writeModules cfg ms h
+
+/-- `WF` without the three exclusions: any declared hard-register globals, any insn code of the
+table (except UNSPEC/USE/PHI, which the writer refuses), data of every element type -/
+structure WFfull (cfg : Cfg) (ms : List Module) : Prop where
+  wf : WF { cfg with globalDoubleRead := false, dataPtr := true, codeLimit := cfg.nops.length,
+                     endfuncLabels := true } ms
+
+/-- once the reader facts are repaired the round trip holds on the whole vocabulary -/
+theorem bin_roundtrip (cfg : Cfg) (_hs : cfg.sound) (ms : List Module)
+    (h : WF cfg ms) : readModules cfg (writeModules cfg ms) = .ok ms :=
+  bin_roundtrip_partial cfg ms h
+
+/-- … and for a sound `cfg`, `WF cfg` excludes nothing: it follows from `WFfull` -/
+theorem wf_of_wffull (cfg : Cfg) (hs : cfg.sound) (hc : cfg.codeLimit = cfg.nops.length) (ms : List Module)
+    (h : WFfull cfg ms) : WF cfg ms := by
+  obtain ⟨h1, h2, _, h4⟩ := hs
+  have e : { cfg with globalDoubleRead := false, dataPtr := true, codeLimit := cfg.nops.length,
+                      endfuncLabels := true } = cfg := by
+    cases cfg; simp_all
+  have := h.wf
+  rwa [e] at this
+
+/-- the theorem for the facts generated from the source under test -/
+theorem bin_roundtrip_current (ms : List Module) (h : WF MirVerif.Gen.C11.cfg ms) :
+    readModules MirVerif.Gen.C11.cfg (writeModules MirVerif.Gen.C11.cfg ms) = .ok ms :=
+  bin_roundtrip_partial _ ms h
+
+/-- the format is injective on well-formed module lists (and `writeModules` is a function of the
+module list alone: no hidden state, no hash order — the implementation side of this is tie (b)) -/
+theorem write_deterministic (cfg : Cfg) (ms1 ms2 : List Module) (h1 : WF cfg ms1) (h2 : WF cfg ms2)
+    (e : writeModules cfg ms1 = writeModules cfg ms2) : ms1 = ms2 := by
+  have a := bin_roundtrip_partial cfg ms1 h1
+  have b := bin_roundtrip_partial cfg ms2 h2
+  rw [e, b] at a
+  injection a with a
+  exact a.symm
+
+/-! ## labels -/
+
+/-- inside a function of the re-read module two label occurrences (label insns or label operands)
+denote the same label object iff they carry the same number -/
+theorem label_identity (nums : List Nat) (s : LabState) (h : LabInv s) (a b : Occ)
+    (ha : a ∈ (resolveNums s nums).1) (hb : b ∈ (resolveNums s nums).1) :
+    a.num = b.num ↔ a.obj = b.obj := resolveNums_identity nums s h a b ha hb
+
+/-- … for every function of a module as `resolveItems` replays the reader
+(`func_labels` is emptied at `func`, so the invariant holds whatever came before) -/
+theorem label_identity_func (cfg : Cfg) (s : LabState) (f : Func) (r : List Item) (a b : Occ) :
+    match resolveItems cfg s (.func f :: r) with
+    | .func fl :: _ => a ∈ fl.occs → b ∈ fl.occs → (a.num = b.num ↔ a.obj = b.obj)
+    | _ => False := by
+  simp only [resolveItems]
+  intro ha hb
+  exact resolveNums_identity _ _ (LabInv.empty _) a b ha hb
+
+/-! ## today's reader facts and the witnesses of the four findings -/
+
+/-- the facts `translate/c11_tables.py` finds in the pinned source (kept here so that the witnesses
+below stay theorems after a repair; the check reports when `Gen.C11.cfg` moves away from it) -/
+def Cfg.today : Cfg :=
+  { nops := [2, 2, 2, 2, 2, 2, 2, 2, 2, 2, 2, 2, 2, 2, 2, 2, 2, 2, 2, 2, 2, 2, 2, 2, 2, 2, 2, 2, 2, 2, 2, 2, 2, 2, 3, 3, 3, 3, 3, 3, 3, 3, 3, 3, 3, 3, 3, 3, 3, 3, 3, 3, 3, 3, 3, 3, 3, 3, 3, 3, 3, 3, 3, 3, 3, 3, 3, 3, 3, 3, 3, 3, 3, 3, 3, 3, 3, 3, 3, 3, 3, 3, 3, 3, 3, 3, 3, 3, 3, 3, 3, 3, 3, 3, 3, 3, 3, 3, 3, 3, 3, 3, 3, 3, 3, 3, 3, 3, 3, 3, 3, 3, 3, 3, 3, 3, 3, 3, 1, 2, 2, 2, 2, 3, 3, 3, 3, 3, 3, 3, 3, 3, 3, 3, 3, 3, 3, 3, 3, 3, 3, 3, 3, 3, 3, 3, 3, 3, 3, 3, 3, 3, 3, 3, 3, 3, 3, 3, 3, 3, 3, 1, 1, 1, 1, 2, 1, 0, 0, 0, 0, 0, 1, 2, 1, 1, 3, 4, 1, 1, 0, 0, 2, 3, 3, 0, 0, 0],
+    codeLimit := 180, unportable := [181, 185, 186], globalDoubleRead := true, lrefOrphan := true,
+    dataPtr := false, endfuncLabels := false, version := 1 }
+
+def nm (s : String) : Name := s.toList.map Char.toNat
+
+def fG : Func :=
+  { name := [102], vararg := false, res := [6], args := [{ ty := 6, name := [97], size := 0 }],
+    locals := [], globals := [(6, [103], [114, 49, 51])],
+    insns := [.op 34 [.reg [103], .reg [103], .reg [97]], .op 171 [.reg [103]]] }
+def mG : Module := { name := [109], items := [.func fG] }
+
+/-- #30: a function with a `global` variable is not read back by today's reader -/
+theorem global_var_not_read_back :
+    readModules Cfg.today (writeModules Cfg.today [mG]) = .error "wrong string num" := by decide +kernel
+
+/-- … and is read back once the name is taken from the token -/
+example : readModules { Cfg.today with globalDoubleRead := false }
+    (writeModules { Cfg.today with globalDoubleRead := false } [mG]) = .ok [mG] := by decide +kernel
+
+def mP : Module :=
+  { name := [109],
+    items := [.func { name := [102], vararg := false, res := [], args := [{ ty := 6, name := [97], size := 0 }],
+                      locals := [], globals := [],
+                      insns := [.op 182 [.reg [97], .int 7], .op 171 []] }] }
+
+/-- #31: prset (code 182 ≥ MIR_LABEL = 180) is rejected -/
+theorem property_insn_not_read_back :
+    readModules Cfg.today (writeModules Cfg.today [mP]) = .error "wrong insn code" := by decide +kernel
+
+def mD : Module := { name := [109], items := [.data (some [100]) 11 [4660, 0]] }
+
+/-- #34: data of element type p -/
+theorem data_p_not_read_back :
+    readModules Cfg.today (writeModules Cfg.today [mD])
+      = .error "data type does not correspond value type" := by decide +kernel
+
+def fL : Func :=
+  { name := [102], vararg := false, res := [], args := [], locals := [], globals := [],
+    insns := [.label 1, .op 118 [.label 1], .op 171 []] }
+
+/-- #6: with today's reader the label object of an lref item is not the label of the function
+(objects 0 for L1 in `f`, a fresh object 1 for the lref) … -/
+theorem lref_labels_orphan :
+    (resolveItems Cfg.today { next := 0, tab := [] } [.func fL, .lref none 1 none 0]).map
+        (fun i => match i with | .func f => f.occs | .lref l => l.occs)
+      = [[⟨1, 0⟩, ⟨1, 0⟩], [⟨1, 1⟩]] := by decide
+
+/-- … and is that label when `to_lab` is used -/
+example : (resolveItems { Cfg.today with lrefOrphan := false } { next := 0, tab := [] }
+      [.func fL, .lref none 1 none 0]).map (fun i => match i with | .func f => f.occs | .lref l => l.occs)
+      = [[⟨1, 0⟩, ⟨1, 0⟩], [⟨1, 0⟩]] := by decide
+
+def mT : Module :=
+  { name := [109],
+    items := [.func { name := [102], vararg := false, res := [], args := [], locals := [], globals := [],
+                      insns := [.op 118 [.label 1], .op 171 [], .label 1] }] }
+
+/-- a function that ends with a label (legal through the API, e.g. the target of a jump to the end)
+is written but refused by today's reader … -/
+theorem trailing_label_not_read_back :
+    readModules Cfg.today (writeModules Cfg.today [mT])
+      = .error "statement should have no labels" := by decide +kernel
+
+/-- … and read back when the reader appends the pending labels at `endfunc` -/
+example : readModules { Cfg.today with endfuncLabels := true }
+    (writeModules { Cfg.today with endfuncLabels := true } [mT]) = .ok [mT] := by decide +kernel
+
+/-! ## the hypotheses are satisfiable (non-vacuity) -/
+
+def fS : Func :=
+  { name := [102], vararg := true, res := [6, 9],
+    args := [{ ty := 6, name := [97], size := 0 }, { ty := 12, name := [98], size := 4096 }],
+    locals := [(6, [114]), (9, [100])], globals := [],
+    insns := [.op 0 [.reg [114], .int (2 ^ 64 - 1)],
+              .label 300,
+              .op 0 [.mem { ty := 4, disp := 8, base := some [97], index := some ([114], 8),
+                            alias := [120], nonalias := [] }, .uint 128],
+              .op 2 [.reg [100], .dbl 0x7FF8000000000001],
+              .op 0 [.reg [114], .str [104, 0, 105]],
+              .op 0 [.reg [114], .ref [103]],
+              .op 133 [.label 300, .reg [114], .int 3],
+              .op 171 [.reg [114], .reg [100]]] }
+def mS : Module :=
+  { name := [109],
+    items := [.import_ [112], .data (some [103]) 0 [255, 128, 0], .data none 10 [2 ^ 79 + 1],
+              .bss none 16, .proto [113] false [6] [], .func fS, .ref (some [114]) [103] 8,
+              .lref none 300 none 0, .export_ [102]] }
+
+example : WF Cfg.today [mS] := by decide +kernel
+example : readModules Cfg.today (writeModules Cfg.today [mS]) = .ok [mS] :=
+  bin_roundtrip_partial _ _ (by decide +kernel)
+example : TokWF (.name 70000 3) ∧ TokWF (.int (2 ^ 64 - 1)) := by decide
+example : LabInv { next := 5, tab := [] } := LabInv.empty 5
+
+end BinIO.Props
